@@ -150,7 +150,8 @@ func readCableLabsEbp(data []byte) (ebp *cableLabsEbp, err error) {
 	}
 
 	if ebp.TimeFlag() {
-		if int(index)+8 > len(data) {
+		if int(index)+8 > len(data) || index > 0xFF-8 {
+			// the time field runs past the end of the data (or of what the 8-bit cursor can address)
 			return nil, gots.ErrInvalidEBPLength
 		}
 		ebp.TimeSeconds = binary.BigEndian.Uint32(data[index : index+4])
